@@ -33,6 +33,7 @@ import hashlib
 import io
 import itertools
 import os
+import re
 import traceback
 
 from mc import boot, par, wt
@@ -174,7 +175,7 @@ def describe(specs):
 
 
 def cr_only(exp, got):
-    """True if got differs from exp only by trailing carriage returns lost from string fields."""
+    """True if got differs from exp only by carriage returns lost at the end of a value or of one of its lines."""
     if len(exp) != len(got):
         return False
     hit = False
@@ -186,9 +187,12 @@ def cr_only(exp, got):
                 continue
             if x is None or y is None:
                 return False
-            r = b"\r" if isinstance(x, bytes) else "\r"
-            if x.endswith(r) and x.rstrip(r) == y:
-                hit = True
+            if isinstance(x, bytes):
+                norm = re.sub(rb"\r+(\n|$)", rb"\1", x)
+            else:
+                norm = re.sub(r"\r+(\n|$)", r"\1", x)
+            if norm == y:
+                hit = True          # carriage returns directly before a line end (or the end of the value) were dropped
             else:
                 return False
     return hit
